@@ -17,6 +17,7 @@ def run(chk, prog):
     from . import C19
 
     tmp = Check("C19", chk.tier, chk.seed, write_evidence=False)
+    tmp.nested = True
     C19.run(tmp, prog)
     viol = {(v["rule"], v["instance"]): v for v in tmp.violations}
     n19 = 0
